@@ -123,6 +123,7 @@ def generate(G):
         ("matmulshare", "MatmulShare", [L([2, 2], "D2"), L([2, 2], "D2"), L([2], "D2")], "Explicit(Dom::D2)", "thorough", 14, (), False),
         ("relumix", "ReluMix", [L([2], "Sgn"), L([2], "Sgn")], "Explicit(Dom::D4)", "quick", 6, (), False),
         ("relushare_1", "ReluShare", [L([1], "Sgn")], "Explicit(Dom::D4)", "quick", 6, (), False),
+        ("relushare_dead", "ReluShare", [L([2], "Neg1")], "Explicit(Dom::D4)", "quick", 6, (), False),
         ("lnexp", "LnExp", [L([2], "Pos"), L([2]), L([2])], "Explicit(Dom::D4)", "quick", 10, ("ln", "exp", "powf"), True),
         ("keepmid", "KeepMid", [L([2]), L([2])], "Explicit(Dom::D4)", "thorough", 6, (), False),
         ("detachmid", "DetachMid", [L([2]), L([2])], "Explicit(Dom::D4)", "quick", 6, (), False),
